@@ -764,3 +764,34 @@ Lemma failed_transfer_only_fee : forall var src tgts l,
 Proof.
   intros var src tgts l H. cbn [exec_tx]. destruct (fee_step l src) as [l1 [|]]; cbn [fst] in *; [rewrite H|]; reflexivity.
 Qed.
+
+(* ---------- the parsed-level constructor produces well-formed, closed transactions ---------- *)
+Lemma contract_tx_wf : forall src jok gas value creation nz z tr eok gu stale,
+  0 <= gu -> match stale with Some s => 0 <= s | None => True end -> Forall ev_wf tr ->
+  tx_wf (contract_tx src jok gas value creation nz z tr eok gu stale).
+Proof.
+  intros. unfold contract_tx.
+  destruct jok; [destruct gas; [destruct value| |destruct value]|];
+    cbn [tx_wf]; repeat split; try assumption; try constructor; unfold gas_price; lia.
+Qed.
+
+Lemma contract_tx_closed : forall U src jok gas value creation nz z tr eok gu stale,
+  In src U -> Forall (ev_closed U) tr -> tx_closed U (contract_tx src jok gas value creation nz z tr eok gu stale).
+Proof.
+  intros. unfold contract_tx.
+  destruct jok; [destruct gas; [destruct value| |destruct value]|]; cbn [tx_closed]; split; try assumption; constructor.
+Qed.
+
+Lemma contract_tx_conserves : forall U src jok gas value creation nz z tr eok gu stale l,
+  universe U -> In src U -> Forall (ev_closed U) tr -> Forall ev_wf tr -> 0 <= gu ->
+  match stale with Some s => 0 <= s | None => True end -> nonneg l -> sched_ok U (sched l) ->
+  let l' := exec_tx repaired (contract_tx src jok gas value creation nz z tr eok gu stale) l in
+  wealth U l' + burned l' = wealth U l + burned l /\ nonneg l' /\ sched_ok U (sched l') /\ sumU U (bal l') <= sumU U (bal l).
+Proof.
+  intros U src jok gas value creation nz z tr eok gu stale l HU Hs Hc Hw Hg Hst Hn Hsc l'.
+  pose proof (contract_tx_wf src jok gas value creation nz z tr eok gu stale Hg Hst Hw) as Hwf.
+  pose proof (contract_tx_closed U src jok gas value creation nz z tr eok gu stale Hs Hc) as Hcl.
+  destruct (tx_conserves U _ l HU Hcl Hwf Hn Hsc) as (H1 & H2 & H3).
+  destruct (tx_balances_never_increase U _ l HU Hcl Hwf Hn Hsc) as (_ & _ & H4).
+  repeat split; assumption.
+Qed.
